@@ -693,10 +693,7 @@ func (o *ovsdbClient) update(params []json.RawMessage, reply *[]interface{}) err
 	db.cacheMutex.RUnlock()
 
 	if err != nil {
-		select {
-		case o.errorCh <- err:
-		default:
-		}
+		o.reportCacheError(err)
 	}
 
 	return err
@@ -743,10 +740,7 @@ func (o *ovsdbClient) update2(params []json.RawMessage, reply *[]interface{}) er
 	db.cacheMutex.RUnlock()
 
 	if err != nil {
-		select {
-		case o.errorCh <- err:
-		default:
-		}
+		o.reportCacheError(err)
 	}
 
 	return err
@@ -1337,6 +1331,28 @@ func (o *ovsdbClient) watchForLeaderChange(ctx context.Context) error {
 	db.monitorsMutex.Unlock()
 	o.rpcMutex.RUnlock()
 	return err
+}
+
+// reportCacheError hands the error of a cache update to handleClientErrors
+// when it is one the cache is rebuilt for. The others are logged here: the
+// channel has room for one error, and one that is only logged must not take
+// the place of one that is acted on
+func (o *ovsdbClient) reportCacheError(err error) {
+	var errColumnNotFound *mapper.ErrColumnNotFound
+	var errCacheInconsistent *cache.ErrCacheInconsistent
+	var errIndexExists *cache.ErrIndexExists
+	switch {
+	case errors.As(err, &errCacheInconsistent) || errors.As(err, &errIndexExists):
+		select {
+		case o.errorCh <- err:
+		default:
+			// one pending error is enough to rebuild the cache
+		}
+	case errors.As(err, &errColumnNotFound):
+		o.logger.V(3).Error(err, "error updating cache, DB schema may be newer than client!")
+	default:
+		o.logger.V(3).Error(err, "error updating cache")
+	}
 }
 
 func (o *ovsdbClient) handleClientErrors(stopCh <-chan struct{}, rpcClient *rpc2.Client) {
